@@ -52,6 +52,9 @@ def stack_guards(rep: Report, prog: Program) -> None:
         # counters asserted equal to len(L)
         terms = {f"len({L})"}
         for a in own_nodes(f.node):
+            if isinstance(a, ast.Assign) and len(a.targets) == 1 and isinstance(a.targets[0], ast.Name) and norm(a.value) == f"len({L})":
+                terms.add(a.targets[0].id)          # n = len(L)
+        for a in own_nodes(f.node):
             if isinstance(a, ast.Assert):
                 for c in ast.walk(a.test):
                     if isinstance(c, ast.Compare) and len(c.ops) == 1 and isinstance(c.ops[0], ast.Eq):
